@@ -1314,8 +1314,11 @@ class DeflateBuffer:
             self._started_decoding = True
 
         low_water = self.out._low_water
+        # At least 1: the decompressors take 0 to mean "no limit".
         max_length = (
-            0 if low_water >= sys.maxsize else max(self._max_decompress_size, low_water)
+            0
+            if low_water >= sys.maxsize
+            else max(self._max_decompress_size, low_water, 1)
         )
         try:
             chunk = self.decompressor.decompress_sync(chunk, max_length=max_length)
